@@ -22,6 +22,7 @@ import (
 	"runtime"
 	"strings"
 	"sync"
+	"sync/atomic"
 	"testing"
 	"time"
 
@@ -202,7 +203,8 @@ func (h *hclock) pending() bool {
 }
 
 type step struct {
-	Op    string `json:"op"` // sched | remove | entries | start | stop | adv | unblock
+	Op    string `json:"op"` // sched | remove | entries | start | run | stop | adv | unblock
+	Panic bool   `json:"panic,omitempty"` // the job panics on its first invocation (only with a chain that contains Recover)
 	P     int    `json:"p,omitempty"`
 	Ph    int    `json:"ph,omitempty"`
 	Real  bool   `json:"real,omitempty"`  // a parsed cron spec added with AddFunc
@@ -222,6 +224,7 @@ type program struct {
 type hlogger struct {
 	rec  *recorder
 	hook func(string)
+	gate func(string)
 }
 
 func (l *hlogger) Info(msg string, kv ...interface{}) {
@@ -244,6 +247,11 @@ func (l *hlogger) Info(msg string, kv ...interface{}) {
 			cp[k] = v
 		}
 		l.rec.hook("log."+msg, cp)
+	}
+	if msg == "stop" && l.gate != nil {
+		// the scheduler goroutine (Start's, or the caller's own inside the blocking Run) can be held here, after it
+		// left its loop and before it returns
+		l.gate("cron.log.stop")
 	}
 	if msg == "run" {
 		m["id"] = m["entry"]
@@ -367,15 +375,15 @@ func runProgram(b, hb *tv.Batch, prog program, seed int64) result {
 		id := curSched
 		return cron.FuncJob(func() {
 			inv := invs.begin()
+			defer invs.end()
 			j.Run()
-			invs.end()
 			if !inv.entered {
 				rec.ev("jobskip", tv.M{"id": id})
 			}
 		})
 	}
 	wlog := &wrapLogger{hook: hook}
-	opts := []cron.Option{cron.WithClock(clk), cron.WithLogger(&hlogger{rec: rec, hook: hook}), cron.WithLocation(loc)}
+	opts := []cron.Option{cron.WithClock(clk), cron.WithLogger(&hlogger{rec: rec, hook: hook, gate: func(p string) { ctl.Point(p) }}), cron.WithLocation(loc)}
 	switch prog.Chain {
 	case "recover":
 		opts = append(opts, cron.WithChain(mark, cron.Recover(wlog)))
@@ -385,6 +393,8 @@ func runProgram(b, hb *tv.Batch, prog program, seed int64) result {
 		opts = append(opts, cron.WithChain(mark, cron.DelayIfStillRunning(wlog)))
 	case "recover+delay":
 		opts = append(opts, cron.WithChain(mark, cron.Recover(wlog), cron.DelayIfStillRunning(wlog)))
+	case "recover+skip":
+		opts = append(opts, cron.WithChain(mark, cron.Recover(wlog), cron.SkipIfStillRunning(wlog)))
 	}
 	c := cron.New(opts...)
 
@@ -392,7 +402,7 @@ func runProgram(b, hb *tv.Batch, prog program, seed int64) result {
 	var cur *sched.Task
 	inflight := func() bool { return cur != nil && !cur.Done() }
 	var harnessErr error
-	nextID, nStops := 0, 0
+	nextID, nStops, nRuns := 0, 0, 0
 	pc := 0
 
 	cronParked := func() bool {
@@ -411,10 +421,15 @@ func runProgram(b, hb *tv.Batch, prog program, seed int64) result {
 	pending := func() bool { return clk.pending() && !nudgeStuck }
 	calm := func() bool { return !cronParked() && !pending() && !isMidWake() }
 
-	mkJob := func(id int, block bool) func() {
+	mkJob := func(id int, block, panics bool) func() {
+		var calls atomic.Int32
 		return func() {
 			invs.entered()
 			rec.ev("jobstart", tv.M{"id": id, "now": nowTicks()})
+			if panics && calls.Add(1) == 1 {
+				rec.ev("jobend", tv.M{"id": id, "panic": true})
+				panic(fmt.Sprintf("c05: job of entry %d panics", id))
+			}
 			if block {
 				ctl.Point("job.block")
 			}
@@ -451,17 +466,18 @@ func runProgram(b, hb *tv.Batch, prog program, seed int64) result {
 				if s.P > 0 {
 					lph = int(floorMod(int64(s.Ph)+offTicks, int64(s.P))) // base is a multiple of 12 ticks
 				}
-				rec.ev("sched_call", tv.M{"id": id, "p": s.P, "ph": s.Ph, "real": s.Real, "block": s.Block})
+				panics := s.Panic && strings.Contains(prog.Chain, "recover") // without Recover a panic would end the process
+				rec.ev("sched_call", tv.M{"id": id, "p": s.P, "ph": s.Ph, "real": s.Real, "block": s.Block, "panic": panics})
 				cur = ctl.Go("sched", func() {
 					var got cron.EntryID
 					if s.Real {
 						var err error
-						got, err = c.AddFunc(realSpec(s.P, lph), mkJob(id, s.Block))
+						got, err = c.AddFunc(realSpec(s.P, lph), mkJob(id, s.Block, panics))
 						if err != nil {
 							harnessErr = err
 						}
 					} else {
-						got = c.Schedule(&hsched{p: s.P, lph: lph, rec: rec}, cron.FuncJob(mkJob(id, s.Block)))
+						got = c.Schedule(&hsched{p: s.P, lph: lph, rec: rec}, cron.FuncJob(mkJob(id, s.Block, panics)))
 					}
 					if int(got) != id {
 						harnessErr = fmt.Errorf("entry id %d, expected %d", got, id)
@@ -487,6 +503,14 @@ func runProgram(b, hb *tv.Batch, prog program, seed int64) result {
 			case "start":
 				rec.ev("start", nil)
 				c.Start()
+			case "run": // the blocking Run() on a goroutine of its own; its return is observed
+				nRuns++
+				r := nRuns
+				rec.ev("runcall", tv.M{"r": r})
+				ctl.Go("run", func() {
+					c.Run()
+					rec.ev("runret", tv.M{"r": r})
+				})
 			case "stop":
 				nStops++
 				k := nStops
@@ -670,7 +694,7 @@ var schedFamilies = [][]schedSpec{
 	{{3, 1}, {4, 0}, {2, 0}},
 }
 
-var chains = []string{"none", "none", "none", "recover", "skip", "delay", "recover+delay"}
+var chains = []string{"none", "none", "none", "recover", "skip", "delay", "recover+delay", "recover+skip"}
 
 func nextAct(p, ph, t int) int {
 	if p == 0 {
@@ -725,8 +749,50 @@ func betweenHistories(mode string, every int) []program {
 // chainHistories: entry 1 blocks in its job; entry 2's instants are reached meanwhile (it must be started at each of
 // them whatever entry 1 does); entry 1's own next instants are reached while it is still running (delay / skip
 // per entry); then the blocked jobs are let go.
+// runHistories: the blocking Run() as an alternative to Start(), restarts in every combination; in racing mode the
+// second start is issued before or after the first scheduler goroutine has returned (it can be held at its "stop"
+// log line); then activations, Stop, and more clock steps during which nothing may start.
+func runHistories(mode string) []program {
+	var ps []program
+	mk := func(ops ...string) {
+		p := program{Loc: 19800, Mode: mode, Chain: "none", Prefix: []string{}}
+		p.Steps = append(p.Steps, step{Op: "sched", P: 2, Ph: 0}, step{Op: "sched", P: 3, Ph: 1})
+		for _, o := range ops {
+			switch o {
+			case "adv":
+				p.Steps = append(p.Steps, step{Op: "adv", D: 2})
+			default:
+				p.Steps = append(p.Steps, step{Op: o})
+			}
+		}
+		p.Steps = append(p.Steps, step{Op: "adv", D: 2}, step{Op: "entries"}, step{Op: "adv", D: 1}, step{Op: "entries"})
+		ps = append(ps, p)
+	}
+	for _, a := range []string{"run", "start"} {
+		for _, b := range []string{"run", "start"} {
+			mk(a, "adv", "stop", b, "adv", "stop")
+			mk(a, "stop", b, "adv", "entries", "stop")
+		}
+	}
+	mk("start", "run", "adv", "stop")        // Run on a running Cron returns at once, no second loop
+	mk("run", "run", "adv", "run", "stop")
+	return ps
+}
+
 func chainHistories(mode string) []program {
 	var ps []program
+	// a job that panics on its first invocation under Recover: the entry's later activations must still enter the job
+	for _, ch := range []string{"recover", "recover+skip", "recover+delay"} {
+		for _, fam := range [][]schedSpec{{{2, 0}, {3, 1}}, {{1, 0}, {2, 1}}} {
+			p := program{Loc: 19800, Mode: mode, Chain: ch, Prefix: []string{}}
+			p.Steps = append(p.Steps, step{Op: "sched", P: fam[0].p, Ph: fam[0].ph, Panic: true}, step{Op: "sched", P: fam[1].p, Ph: fam[1].ph}, step{Op: "start"})
+			for _, d := range []int{1, 1, 1, 1, 2} {
+				p.Steps = append(p.Steps, step{Op: "adv", D: d})
+			}
+			p.Steps = append(p.Steps, step{Op: "entries"}, step{Op: "stop"}, step{Op: "adv", D: 2}, step{Op: "entries"})
+			ps = append(ps, p)
+		}
+	}
 	for _, ch := range []string{"none", "recover", "skip", "delay", "recover+delay"} {
 		for _, fam := range [][]schedSpec{{{2, 0}, {3, 1}}, {{3, 0}, {2, 1}}, {{2, 0}, {2, 0}}} {
 			p := program{Loc: 19800, Mode: mode, Chain: ch, Prefix: []string{}}
@@ -754,6 +820,9 @@ func genProgram(rng *rand.Rand, mode string) program {
 		s := fam[added%len(fam)]
 		added++
 		st := step{Op: "sched", P: s.p, Ph: s.ph, Block: rng.Intn(4) == 0}
+		if !st.Block && strings.Contains(p.Chain, "recover") && rng.Intn(3) == 0 {
+			st.Panic = true
+		}
 		if (s.p == 2 || s.p == 4) && rng.Intn(3) == 0 {
 			st.Real = true
 		}
@@ -781,7 +850,11 @@ func genProgram(rng *rand.Rand, mode string) program {
 				p.Steps = append(p.Steps, step{Op: "stop"})
 				running = false
 			} else {
-				p.Steps = append(p.Steps, step{Op: "start"})
+				op := "start"
+				if rng.Intn(3) == 0 {
+					op = "run"
+				}
+				p.Steps = append(p.Steps, step{Op: op})
 				running = true
 			}
 		case r < 18:
@@ -882,6 +955,9 @@ func TestCheck(t *testing.T) {
 		{cfg: "MC_between.cfg", what: "entry added between two armed ones"},
 		{cfg: "MC_chain_delay.cfg", what: "WithChain(DelayIfStillRunning), blocking job"},
 		{cfg: "MC_chain_skip.cfg", what: "WithChain(SkipIfStillRunning), blocking job"},
+		{cfg: "MC_chain_recover_delay.cfg", what: "WithChain(Recover, DelayIfStillRunning), job panics once"},
+		{cfg: "MC_defect_delaynodefer.cfg", what: "defect: DelayIfStillRunning unlocks without defer, job panics once", defect: true},
+		{cfg: "MC_defect_runresets.cfg", what: "defect: Run() clears c.running when it returns", defect: true},
 		{cfg: "MC_defect.cfg", what: "defect: stale now after remove", defect: true},
 		{cfg: "MC_defect_lateadd.cfg", what: "defect: jobWaiter.Add inside the job goroutine", defect: true},
 		{cfg: "MC_defect_unsortedadd.cfg", what: "defect: add arm keeps the timer and skips the re-sort", defect: true},
@@ -954,6 +1030,14 @@ func TestCheck(t *testing.T) {
 	}
 	for _, p := range chainHistories("seq") {
 		run(p, rng.Int63())
+	}
+	for _, p := range runHistories("seq") {
+		run(p, rng.Int63())
+	}
+	for i := 0; i < ev.Pick(4, 40); i++ {
+		for _, p := range runHistories("race") {
+			run(p, rng.Int63())
+		}
 	}
 	for i := 0; i < ev.Pick(1, 10); i++ {
 		for _, p := range chainHistories("race") {
